@@ -11,6 +11,10 @@ for d in sorted(os.listdir(base)):
     summ = (m.get("summary") or "").replace("|", "\\|").replace("\n", " ")
     if len(summ) > 150:
         summ = summ[:147] + "..."
+    if d.startswith("benign"):
+        codes = m.get("check_exit_codes", {})
+        rows.append(f"| {d} | {summ} | behaviour-preserving refactoring | - | {'all ' + str(len(codes)) + ' checks silent' if m.get('silent') else 'ALARM: ' + ','.join(k for k, v in codes.items() if v)} |")
+        continue
     if not m.get("applies_at_head", True):
         status = "obsolete (edited code was replaced by a fix: commit)"
         det = "-"
